@@ -35,6 +35,7 @@ PURE_CALLS = {
 PURE_METHODS = {
     "get", "upper", "lower", "startswith", "endswith", "split", "join", "strip", "items", "keys", "values",
     "append", "extend", "copy", "format", "substitute", "casefold", "replace", "add", "update", "pop",
+    "chain", "rpartition", "partition", "removeprefix", "removesuffix",  # lazy constructors / total str methods
 }
 LIB_FAMILIES = ("duckdb.", "snowflake.")
 LOG_METHODS = {"debug", "info", "warning", "error", "exception", "critical", "log"}
@@ -87,6 +88,9 @@ class CFG:
     ):
         self.pure_pred = pure_pred
         self.prog = prog
+        home = prog.locate(mod, qual)  # the function may live in a sibling module that `mod` re-exports
+        if home is not None and home != (mod, qual):
+            mod, qual = home
         self.mod = prog.mod(mod)
         self.qual = qual
         self.inline_depth = inline_depth
@@ -166,7 +170,7 @@ class CFG:
                 return set()
         if isinstance(f, ast.Attribute) and f.attr in PURE_METHODS:
             return set()
-        if isinstance(f, ast.Attribute) and f.attr in ("ExitStack",):
+        if isinstance(f, ast.Attribute) and f.attr in ("ExitStack", "closing", "suppress", "nullcontext"):
             return set()  # stdlib constructor that cannot fail
         if isinstance(f, ast.Attribute) and f.attr in LOG_METHODS:
             # the logging module swallows errors of handlers and formatting (logging.raiseExceptions only prints them)
@@ -185,10 +189,10 @@ class CFG:
         cls = owner.split(".")[0] if "." in owner else None
         if isinstance(f, ast.Attribute) and isinstance(f.value, ast.Name) and f.value.id in ("self", "cls") and cls:
             q = f"{cls}.{f.attr}"
-            if q in m.functions:
+            if m.functions.own(q):
                 return m.name, q
             return None
-        if isinstance(f, ast.Name) and f.id in m.functions:
+        if isinstance(f, ast.Name) and m.functions.own(f.id):
             return m.name, f.id
         d = self.prog.dotted(m, f)
         if d:
